@@ -86,13 +86,13 @@ def handle : Handler := fun op j =>
         ("ok", Json.bool (irrelevantOK B anyT etype r)),
         ("top", Json.bool (beq etype anyT)),
         ("early", Json.bool (irrEarly anyT etype)),
-        ("sub", Json.bool (match r with | some x => isSubDTop B x tgt | none => false)),
-        ("sup", Json.bool (match r with | some x => isSubDTop B tgt x | none => false)),
+        ("sub", Json.bool (match r with | some x => subJ B x tgt | none => false)),
+        ("sup", Json.bool (match r with | some x => subJ B tgt x | none => false)),
         ("tcon", Json.bool (match r with | some x => x.isTCon | none => false))])))
   | "find.subd" => some (do
       let tbl ← parseTable j
       let B ← tyListAt tbl j "B"
-      pure (res (Json.bool (isSubDTop B (← tyAt tbl j "s") (← tyAt tbl j "t")))))
+      pure (res (Json.bool (subJ B (← tyAt tbl j "s") (← tyAt tbl j "t")))))
   | _ => none
 
 end Driver.Find
